@@ -138,6 +138,10 @@ def main(argv=None):
         if counters.get('evaluations', 0) <= 0:
             inconc.append({'reason': 'no evaluations'})
 
+    # verdicts that only exist over the whole run (rates)
+    if not replay and hasattr(mod, 'post_check'):
+        for (mech, detail) in mod.post_check(counters, tier):
+            viol.append({'mech': mech, 'detail': detail, 'desc': {'post_check': True}, 'replay': {'post_check': True}})
     known = core.load_known()
     by_mech = {}
     for v in viol:
